@@ -9,6 +9,7 @@ package main
 import (
 	"bytes"
 	"context"
+	"encoding/json"
 	"fmt"
 	"os"
 	"os/exec"
@@ -58,14 +59,18 @@ func classify(p []byte) string {
 	esc := bytes.Contains(p, []byte{0x1b})
 	switch {
 	case len(p) > 0 && p[0] == '{':
-		if !oneLine || esc || !bytes.HasSuffix(p, []byte("}\n")) {
+		if !oneLine || esc || !bytes.HasSuffix(p, []byte("}\n")) || !json.Valid(p) {
 			return "broken-json"
 		}
 		return "json"
 	case esc && bytes.HasPrefix(p, []byte("\x1b[")):
+		// no field of another format inside (the probes' own texts hold neither of these)
+		if bytes.Contains(p, []byte("\":")) || bytes.Contains(p, []byte("logger=")) || bytes.Contains(p, []byte("level=")) {
+			return "broken-color"
+		}
 		return "color"
 	case bytes.HasPrefix(p, []byte("time=")):
-		if !oneLine || esc {
+		if !oneLine || esc || bytes.Contains(p, []byte("\":")) || bytes.Contains(p, []byte("\",")) {
 			return "broken-logfmt"
 		}
 		return "logfmt"
